@@ -13,7 +13,7 @@ The subset (everything else raises Unsupported - never guessed, never skipped):
                  not influence the result), docstrings
   tests        : and / or / not, `p is None`, `p is not None`, `isinstance(p, C)`, truthiness of a value, comparisons
   expressions  : names, attribute paths of declared records, int / str / None constants, + - on int / timedelta /
-                 aware datetime, comparisons, and the calls listed in CALLS / METHODS below
+                 aware datetime, comparisons, `a if t else b`, and the calls handled by tr_call below
 Early returns and fall-through are translated by continuation passing (the statements after an `if` are copied into
 both arms), tests by decision trees; `is None` / isinstance / truthiness tests on Optional / Union values become
 `match`es that NARROW the tested access path in the arm's environment, so an unguarded use of an Optional value cannot
@@ -170,6 +170,17 @@ def tr_expr(fn, node, env):
         _bad("comparison %s on %r, %r" % (op, ta, tb), node)
     if isinstance(node, ast.Call):
         return tr_call(fn, node, env)
+    if isinstance(node, ast.IfExp):
+        box = []
+
+        def arm(e, sub):
+            g, t = tr_expr(fn, sub, e)
+            box.append(t)
+            return g
+        text = tr_test(fn, node.test, env, lambda e: arm(e, node.body), lambda e: arm(e, node.orelse))
+        if any(t != box[0] for t in box):
+            _bad("conditional expression with arms of different types %r" % box, node)
+        return "(" + text + ")", box[0]
     _bad("expression %s" % type(node).__name__, node)
 
 
